@@ -24,7 +24,7 @@ class Run:
         self.events = events
         self.prefix = prefix
         self.case = case
-        if len(events) == 1 and events[0].startswith('t') and (prefix + 'EV') in obs:
+        if len(events) == 1 and events[0][0] in 'tr' and events[0][1:].isdigit() and (prefix + 'EV') in obs:
             # stream consumed inside a tokio runtime: the harness wrote what happened as events
             ev_s = obs[prefix + 'EV'].strip()
             self.events = events = [] if ev_s in ('-', '') else ev_s.split()
@@ -175,6 +175,8 @@ def mon_c02(c, r):
 
 
 def clean(r):
+    if r.case.family.startswith('tokio-share') and r.prefix != 'r0.':
+        return False      # the run starts on an InterruptibilityState that was already interrupted
     if r.kind == 'call':
         return (r.cfg.get('strat', 'non') in ('non', 'ign') or 'i' not in [e.lstrip('+') for e in r.events]) and not r.failed()
     return r.cfg.get('int', '0') == '0' or 'i' not in r.events
@@ -440,7 +442,7 @@ def mon_c09(c, r):
     if o['not_processed'] != want_np:
         return 'fn_ids_not_processed %s, expected %s' % (o['not_processed'], want_np)
     fin = len(st) == c.n
-    if (o['state'] == 'F') != fin:
+    if o['state'] != ('F' if fin else 'I'):     # never NotStarted for a call that returned
         return 'state %s although %d of %d functions were processed' % (o['state'], len(st), c.n)
     if r.cfg.get('ctl', '0') == '1':
         want = 'cont' if (fin and not r.failed()) else 'break'
@@ -510,6 +512,8 @@ def _same_as_fresh(c, p, f, what):
 
 
 def mon_c15(c):
+    if c.family.startswith('tokio-share'):
+        return None      # runs share one InterruptibilityState on purpose: no fresh-graph oracle
     """A later run on the reused graph value = the same run on a fresh graph (harness oracle runs f<j>.)"""
     for j in range(1, len(c.runs)):
         w = _same_as_fresh(c, 'r%d.' % j, 'f%d.' % j, 'run %d on the reused graph' % j)
